@@ -38,6 +38,7 @@ package xixi_kv
 // ---------------------------------------------------------------------------------------------
 
 //@ func (*xixi_kv.DB).setActiveFile
+//@   io_effect
 //@   props C01 C13 C17
 //@   requires [locked] db.mu == nil || db.mu.heldW
 //@   requires [id-room] db.activeFile == nil || db.activeFile.ID < 4294967295
@@ -48,6 +49,7 @@ package xixi_kv
 //@   modifies db.activeFile
 
 //@ func (*xixi_kv.DB).sync
+//@   io_effect
 //@   props C01 C13 C17 C03
 //@   requires [locked] db.mu == nil || db.mu.heldW
 //@   requires [inv]    INV_db(db) && db.activeFile.ID < 4294967295
@@ -61,6 +63,7 @@ package xixi_kv
 //@   modifies db.activeFile, db.olderFiles[*], db.bytesWrite, db.activeFile.ReadWriter.durable
 
 //@ func (*xixi_kv.DB).appendLogRecord
+//@   io_effect
 //@   props C01 C13 C17 C03 C08
 //@   requires [locked] db.mu == nil || db.mu.heldW
 //@   requires [inv]    INV_db(db) && db.activeFile.ID < 4294967295 && db.totalSize <= 4611686018427387904
@@ -88,6 +91,7 @@ package xixi_kv
 // ---------------------------------------------------------------------------------------------
 
 //@ func (*xixi_kv.DB).Put
+//@   io_effect
 //@   ownership
 //@   props C01 C08 C09 C13 C15 C17
 //@   requires [api]   API(db)
@@ -106,6 +110,7 @@ package xixi_kv
 //@   modifies db.activeFile, db.olderFiles[*], db.totalSize, db.bytesWrite, db.reclaimSize, db.logRecordHeader[*], db.activeFile.lastBlockID, db.activeFile.lastBlockSize, db.activeFile.headerBuf[*], db.activeFile.ReadWriter.size, db.activeFile.ReadWriter.data, db.activeFile.ReadWriter.writes, db.activeFile.ReadWriter.durable, db.index.model, db.index.count, db.index.live, db.mu.heldW, db.mu.sections
 
 //@ func (*xixi_kv.DB).Delete
+//@   io_effect
 //@   ownership
 //@   props C01 C08 C09 C13 C15 C17
 //@   requires [api]   API(db)
@@ -201,6 +206,7 @@ package xixi_kv
 //@   modifies b.staged, b.staged[*], b.stageIndex, b.stageIndex[*], arrays:int
 
 //@ func (*xixi_kv.Batch).flushStaged
+//@   io_effect
 //@   props C04 C05 C13 C17 C03
 //@   content
 //@   requires [inv]    BATCH(b) && b.db.mu.heldW
@@ -226,6 +232,7 @@ package xixi_kv
 //@     invariant [sizes]  b.db.totalSize <= 4611686018427387904 + (rangeindex + 1) * 4294967296 && b.db.reclaimSize <= 4611686018427387904 + 2 * (rangeindex + 1) * 4294967296 && 0 - 1 <= rangeindex
 
 //@ func (*xixi_kv.Batch).flushStagedAndUpdateFile
+//@   io_effect
 //@   props C04 C05 C17
 //@   requires [inv]    BATCH(b) && b.db.mu.heldW && b.db.activeFile.ID < 4294967294
 //@   ensures [inv]     result == nil ==> INV_db(b.db) && ACC(b.db) && posOK(b.db) && len(b.staged) == 0 && b.cachedDataSize == 0 && len(b.db.activeFile.bufferedWrites) == 0 && stagedRecs(b) && stageIdxOK(b) && stagedOwned(b) && fresh(b.stageIndex) && arr(b.staged) == old(arr(b.staged))
@@ -236,6 +243,7 @@ package xixi_kv
 //@   modifies b.staged, b.stageIndex, b.cachedDataSize, b.staged[*].BatchID, b.staged[*].Key, b.staged[*].Value, b.staged[*].Type, b.db.activeFile, b.db.olderFiles[*], b.db.totalSize, b.db.bytesWrite, b.db.reclaimSize, b.db.logRecordHeader[*], b.db.activeFile.lastBlockID, b.db.activeFile.lastBlockSize, b.db.activeFile.headerBuf[*], b.db.activeFile.bufferedWrites, b.db.activeFile.bufferedWrites[*], b.db.activeFile.ReadWriter.size, b.db.activeFile.ReadWriter.data, b.db.activeFile.ReadWriter.writes, b.db.activeFile.ReadWriter.durable, b.db.index.model, b.db.index.count, b.db.index.live
 
 //@ func (*xixi_kv.Batch).Put
+//@   io_effect
 //@   ownership
 //@   props C05 C15 C09 C17
 //@   requires [inv]    INV_batch(b) && b.db.activeFile.ID < 4294967294
@@ -251,6 +259,7 @@ package xixi_kv
 //@   modifies b.mu.heldW, b.mu.sections, b.staged, b.staged[*], b.stageIndex, b.stageIndex[*], arrays:int, arrays:byte, b.cachedDataSize, b.staged[*].BatchID, b.staged[*].Key, b.staged[*].Value, b.staged[*].Type, b.db.activeFile, b.db.olderFiles[*], b.db.totalSize, b.db.bytesWrite, b.db.reclaimSize, b.db.logRecordHeader[*], b.db.activeFile.lastBlockID, b.db.activeFile.lastBlockSize, b.db.activeFile.headerBuf[*], b.db.activeFile.bufferedWrites, b.db.activeFile.bufferedWrites[*], b.db.activeFile.ReadWriter.size, b.db.activeFile.ReadWriter.data, b.db.activeFile.ReadWriter.writes, b.db.activeFile.ReadWriter.durable, b.db.index.model, b.db.index.count, b.db.index.live
 
 //@ func (*xixi_kv.Batch).Delete
+//@   io_effect
 //@   ownership
 //@   props C05 C15 C09 C17
 //@   requires [inv]    INV_batch(b) && b.db.activeFile.ID < 4294967294
@@ -282,6 +291,7 @@ package xixi_kv
 //@   modifies b.mu.heldR
 
 //@ func (*xixi_kv.Batch).Commit
+//@   io_effect
 //@   props C04 C05 C09 C13 C02
 //@   requires [inv]    INV_batch(b) && b.db.activeFile.ID < 4294967294
 //@   ensures [rejects-reuse] old(b.committed) ==> result == ErrBatchCommitted && b.db.mu.heldW == old(b.db.mu.heldW) && b.db.activeFile == old(b.db.activeFile) && b.db.activeFile.ReadWriter.size == old(b.db.activeFile.ReadWriter.size)
@@ -293,3 +303,63 @@ package xixi_kv
 //@   at (*datafile.DataFile).WriteLogRecord assert [sealed-carries-batch-id] arg1.Type == datafile.LogRecordBatchFinished && arg1.BatchID == b.batchID && arg1.BatchID > 0 && arg0 == b.db.activeFile
 //@   at (*datafile.DataFile).WriteLogRecord assert [seal-after-records] len(b.staged) == 0 && len(b.db.activeFile.bufferedWrites) == 0 && b.db.mu.heldW
 //@   modifies b.committed, b.mu.heldW, b.mu.sections, b.db.mu.heldW, b.staged, b.stageIndex, b.cachedDataSize, b.staged[*].BatchID, b.staged[*].Key, b.staged[*].Value, b.staged[*].Type, b.db.activeFile, b.db.olderFiles[*], b.db.totalSize, b.db.bytesWrite, b.db.reclaimSize, b.db.logRecordHeader[*], b.db.activeFile.lastBlockID, b.db.activeFile.lastBlockSize, b.db.activeFile.headerBuf[*], b.db.activeFile.bufferedWrites, b.db.activeFile.bufferedWrites[*], b.db.activeFile.ReadWriter.size, b.db.activeFile.ReadWriter.data, b.db.activeFile.ReadWriter.writes, b.db.activeFile.ReadWriter.durable, b.db.index.model, b.db.index.count, b.db.index.live
+
+// ---------------------------------------------------------------------------------------------
+// Merge adoption over the abstract file system (ghost global fs: path -> content identity, 0 = absent)
+//   data(id)   = fname(DirPath, id, ".data")        merged(id) = fname(mergeDir, id, ".data")
+//   mergedC(id): the content the finished merge produced for output file id; hintC: its hint file
+//   markerM(c), markerJ(c): the two numbers a marker file with content c decodes to
+// ---------------------------------------------------------------------------------------------
+//@ spec func mergeDirOf(dir int) int
+//@ spec func mergedC(id int) int
+//@ spec func markerM(c int) int
+//@ spec func markerJ(c int) int
+//@ axiom [merged-content-exists] forall id :: {mergedC(id)} mergedC(id) != 0
+//@ const hintC = 777777
+//@ axiom [merge-dir-distinct] forall d :: {mergeDirOf(d)} mergeDirOf(d) != d && fnameSuf(mergeDirOf(d)) == 0
+
+// the marker's view of a finished merge whose adoption may have been interrupted any number of times:
+// each output file is still in the merge directory, or already sits in the data directory; same for the hint file
+//@ pred K_adopt(db) = (forall id :: {mergedC(id)} 0 <= id && id < markerJ(fs[fname(mergeDirOf(db.options.DirPath), 0, datafile.MergeFinishedFileSuffix)]) ==> fs[fname(mergeDirOf(db.options.DirPath), id, datafile.DataFileSuffix)] == mergedC(id) || (fs[fname(mergeDirOf(db.options.DirPath), id, datafile.DataFileSuffix)] == 0 && fs[fname(db.options.DirPath, id, datafile.DataFileSuffix)] == mergedC(id))) && (fs[fname(mergeDirOf(db.options.DirPath), 0, datafile.HintFileSuffix)] == hintC || (fs[fname(mergeDirOf(db.options.DirPath), 0, datafile.HintFileSuffix)] == 0 && fs[fname(db.options.DirPath, 0, datafile.HintFileSuffix)] == hintC))
+
+//@ func (*xixi_kv.DB).mergePath
+//@   trusted
+//@   pure
+//@   ensures [sibling-dir] result == mergeDirOf(db.options.DirPath)
+
+//@ func (*xixi_kv.DB).getNonMergeFileID
+//@   io_effect
+//@   props C06 C07
+//@   unshared db
+//@   ensures [absent-marker-reads-zero] old(fs)[fname(dirPath, 0, datafile.MergeFinishedFileSuffix)] == 0 ==> result0 == 0 && result1 == 0
+//@   ensures [no-fs-change] fs == old(fs)
+//@   assume  [marker-decodes] old(fs)[fname(dirPath, 0, datafile.MergeFinishedFileSuffix)] != 0 && result0 != 0 ==> result0 == markerM(old(fs)[fname(dirPath, 0, datafile.MergeFinishedFileSuffix)]) && result1 == markerJ(old(fs)[fname(dirPath, 0, datafile.MergeFinishedFileSuffix)])
+//@   modifies nothing
+
+//@ func (*xixi_kv.DB).loadMergeFiles
+//@   io_effect
+//@   per_return
+//@   props C06 C07
+//@   unshared db
+//@   requires [k-adopt] K_adopt(db)
+//@   let D = db.options.DirPath
+//@   let MD = mergeDirOf(db.options.DirPath)
+//@   let mk = old(fs)[fname(mergeDirOf(db.options.DirPath), 0, datafile.MergeFinishedFileSuffix)]
+//@   ensures [ignored-without-merge-dir] old(fs)[MD] == 0 ==> result0 == 0 && result1 == nil && fs == old(fs)
+//@   ensures [ignored-without-marker]    mk == 0 ==> result0 == 0 && result1 == nil && fs == old(fs)
+//@   ensures [adopted-files] result1 == nil && result0 != 0 ==> result0 == markerM(mk) && (forall id :: {mergedC(id)} 0 <= id && id < markerJ(mk) ==> fs[fname(D, id, datafile.DataFileSuffix)] == mergedC(id)) && (forall id :: {fs[fname(D, id, datafile.DataFileSuffix)]} markerJ(mk) <= id && id < markerM(mk) ==> fs[fname(D, id, datafile.DataFileSuffix)] == 0)
+//@   ensures [adopted-hint]  result1 == nil && result0 != 0 ==> fs[fname(D, 0, datafile.HintFileSuffix)] == hintC
+//@   ensures [merge-dir-gone] result1 == nil && result0 != 0 ==> fs[MD] == 0 && (forall p :: {fs[p]} fnameDir(p) == MD ==> fs[p] == 0)
+//@   ensures [others-untouched] forall p :: {fs[p]} fnameDir(p) != MD && p != MD && !(fnameDir(p) == D && fnameSuf(p) == datafile.DataFileSuffix && fnameId(p) < markerM(mk) && p == fname(D, fnameId(p), datafile.DataFileSuffix)) && p != fname(D, 0, datafile.HintFileSuffix) ==> fs[p] == old(fs)[p]
+//@   ensures [retry-safe] result1 != nil ==> fs[fname(MD, 0, datafile.MergeFinishedFileSuffix)] == 0 || (fs[fname(MD, 0, datafile.MergeFinishedFileSuffix)] == mk && K_adopt(db))
+//@   at os.Rename assert [crash-inv] K_adopt(db) && fs[fname(mergeDirOf(db.options.DirPath), 0, datafile.MergeFinishedFileSuffix)] == mk
+//@   at os.Remove assert [crash-inv] K_adopt(db) && fs[fname(mergeDirOf(db.options.DirPath), 0, datafile.MergeFinishedFileSuffix)] == mk
+//@   at os.Remove assert [removes-only-an-original] fnameDir(arg0) == db.options.DirPath && fnameSuf(arg0) == datafile.DataFileSuffix && markerJ(mk) <= fnameId(arg0) && fnameId(arg0) < markerM(mk)
+//@   at os.RemoveAll assert [everything-adopted-first] (forall id :: {mergedC(id)} 0 <= id && id < markerJ(mk) ==> fs[fname(db.options.DirPath, id, datafile.DataFileSuffix)] == mergedC(id)) && fs[fname(db.options.DirPath, 0, datafile.HintFileSuffix)] == hintC
+//@   modifies nothing
+//@   loop 1
+//@     invariant [k-adopt]  K_adopt(db) && fs[fname(mergeDirOf(db.options.DirPath), 0, datafile.MergeFinishedFileSuffix)] == mk && mk != 0 && mergeID == markerM(mk) && mergedFiles == markerJ(mk) && mergedFiles <= mergeID && mergePath == mergeDirOf(db.options.DirPath)
+//@     invariant [prefix-adopted] forall id :: {mergedC(id)} 0 <= id && id < fileID && id < mergedFiles ==> fs[fname(db.options.DirPath, id, datafile.DataFileSuffix)] == mergedC(id) && fs[fname(mergeDirOf(db.options.DirPath), id, datafile.DataFileSuffix)] == 0
+//@     invariant [prefix-removed] forall id :: {fs[fname(db.options.DirPath, id, datafile.DataFileSuffix)]} mergedFiles <= id && id < fileID ==> fs[fname(db.options.DirPath, id, datafile.DataFileSuffix)] == 0
+//@     invariant [others-untouched] forall p :: {fs[p]} !((fnameDir(p) == db.options.DirPath || fnameDir(p) == mergeDirOf(db.options.DirPath)) && fnameSuf(p) == datafile.DataFileSuffix && fnameId(p) < fileID && p == fname(fnameDir(p), fnameId(p), datafile.DataFileSuffix)) ==> fs[p] == old(fs)[p]
+//@     invariant [bounds] 0 <= fileID && fileID <= mergeID
